@@ -162,23 +162,31 @@ theorem C15_script_skips_iff (tests : List Test) (runs : List SRan) :
       ((∀ x ∈ runs.take tests.length, x.leaves = false) ∧ scriptSkipCode tests = 0) :=
   scriptSkips_iff tests runs
 
+/-! CHANGED with the fix `set_consistent!(strip_ansi_escaping)`: the statements about the single-script
+executor "in terms of the runs" below carry the hypothesis `ScriptStripInert tests runs` (no test case
+sets `strip_ansi_escaping: true`, or no command wrote an `ESC` byte): with the key set,
+`strip_ansi_sequences_bytes` runs over the whole captured stream, and a sequence a command leaves
+open can take a divider line -- and the exit code it carries -- with it. -/
+
 /-- **C15, single-script executor** (the skip code skips the whole document): if `scriptSkips`,
 every test of the document is reported `skipped` -- also those that ran before -- and the exit
 status is 0.  For all documents and runs (no bound on the number of test cases). -/
 theorem C15_script_skip_all {tests : List Test} {runs : List SRan} {outcomes : List Outcome}
-    {status : Nat} (h : runScript tests runs = .report outcomes status)
+    {status : Nat} (hstrip : ScriptStripInert tests runs)
+    (h : runScript tests runs = .report outcomes status)
     (hs : scriptSkips tests runs = true) :
     outcomes = (List.range tests.length).map (fun i => (i, Verdict.skipped)) ∧ status = 0 :=
-  (runScript_skip h).1 hs
+  (runScript_skip hstrip h).1 hs
 
 /-- **C15, single-script executor** (nothing else skips): test `i` is reported `skipped` only if
 `scriptSkips`; every other verdict is `success`, wrong output or wrong exit code (completed
 commands: there are no timeouts in this fragment). -/
 theorem C15_script_nothing_else_skips {tests : List Test} {runs : List SRan}
-    {outcomes : List Outcome} {status : Nat} (h : runScript tests runs = .report outcomes status) :
+    {outcomes : List Outcome} {status : Nat} (hstrip : ScriptStripInert tests runs)
+    (h : runScript tests runs = .report outcomes status) :
     (∀ i, (i, Verdict.skipped) ∈ outcomes ↔ (i < tests.length ∧ scriptSkips tests runs = true)) ∧
     (∀ o ∈ outcomes, o.2 = .ok ∨ o.2 = .malformed ∨ o.2 = .skipped ∨ ∃ c e, o.2 = .invalidExit c e) :=
-  (runScript_skip h).2
+  (runScript_skip hstrip h).2
 
 /- The statement "a `skipped` verdict means that the command of SOME TEST ended with the skip code",
 
@@ -193,11 +201,12 @@ compared with the skip code first, and a script that runs to its end ends with t
 
 /-- … under the guard "the skip code is not 0" -/
 theorem C15_script_skipped_cause_partial {tests : List Test} {runs : List SRan}
-    {outcomes : List Outcome} {status i : Nat} (h : runScript tests runs = .report outcomes status)
+    {outcomes : List Outcome} {status i : Nat} (hstrip : ScriptStripInert tests runs)
+    (h : runScript tests runs = .report outcomes status)
     (h0 : scriptSkipCode tests ≠ 0) (hi : (i, Verdict.skipped) ∈ outcomes) :
     ∃ (j : Nat) (r : SRan), j < tests.length ∧ runs[j]? = some r ∧ r.ran.code = scriptSkipCode tests ∧
       ∀ (k : Nat) (x : SRan), k < j → runs[k]? = some x → x.leaves = false :=
-  runScript_skipped_cause h h0 hi
+  runScript_skipped_cause hstrip h h0 hi
 
 /-- the witness: one test with `skip_document_code: 0` that expects the exit code 1; its command ends
 with 1 and does not leave the shell; the document is reported `skipped` -/
@@ -210,23 +219,25 @@ theorem C15_script_skipped_cause_fails_on_witness :
 
 /-- **C15 from the bytes of a Cram document**: both directions for its prepared tests -/
 theorem C15_cram_document_skip {bytes : Bytes} {runs : List SRan} {outcomes : List Outcome}
-    {status : Nat} (h : testCramDocumentBytes bytes runs = .report outcomes status) :
+    {status : Nat} (hstrip : ∀ tests, CramDocTests bytes tests → ScriptStripInert tests runs)
+    (h : testCramDocumentBytes bytes runs = .report outcomes status) :
     ∃ tests, CramDocTests bytes tests ∧
       (scriptSkips tests runs = true →
         outcomes = (List.range tests.length).map (fun i => (i, Verdict.skipped)) ∧ status = 0) ∧
       (∀ i, (i, Verdict.skipped) ∈ outcomes ↔ (i < tests.length ∧ scriptSkips tests runs = true)) ∧
       (∀ o ∈ outcomes, o.2 = .ok ∨ o.2 = .malformed ∨ o.2 = .skipped ∨ ∃ c e, o.2 = .invalidExit c e) :=
-  testCramDocumentBytes_skip h
+  testCramDocumentBytes_skip hstrip h
 
 /-- **C15 from the bytes of a Markdown document read under `--cram-compat`** -/
 theorem C15_compat_document_skip {bytes : Bytes} {runs : List SRan} {outcomes : List Outcome}
-    {status : Nat} (h : testDocumentCompatBytes bytes runs = .report outcomes status) :
+    {status : Nat} (hstrip : ∀ tests, CompatDocTests bytes tests → ScriptStripInert tests runs)
+    (h : testDocumentCompatBytes bytes runs = .report outcomes status) :
     ∃ tests, CompatDocTests bytes tests ∧
       (scriptSkips tests runs = true →
         outcomes = (List.range tests.length).map (fun i => (i, Verdict.skipped)) ∧ status = 0) ∧
       (∀ i, (i, Verdict.skipped) ∈ outcomes ↔ (i < tests.length ∧ scriptSkips tests runs = true)) ∧
       (∀ o ∈ outcomes, o.2 = .ok ∨ o.2 = .malformed ∨ o.2 = .skipped ∨ ∃ c e, o.2 = .invalidExit c e) :=
-  testDocumentCompatBytes_skip h
+  testDocumentCompatBytes_skip hstrip h
 
 /-! Non-vacuity, evaluated by the kernel from the bytes of a document with two test cases: the
 second command ends with 80; without a skip code nothing is skipped; a Cram document. -/
